@@ -127,7 +127,11 @@ C14Laws ==
 C14Step ==
   /\ (Op = "encode_decode" /\ OkStep) => Identical(Res, Src)
   /\ (Op \in {"elide", "elide_set", "compress"} /\ OkStep) =>
-        (Equivalent(Res, Src) /\ (Res # Src => ~Identical(Res, Src)))
+        /\ Equivalent(Res, Src)
+        (* obscuring an element that was present in clear changes the pattern *)
+        /\ (\E p \in Paths(Src) : ~IsObscured(At(Src, p)) /\ p \in Paths(Res) /\ IsObscured(At(Res, p)))
+              => ~Identical(Res, Src)
+        /\ Pattern(Res) = Pattern(Src) => Identical(Res, Src)
 C14Prop == [][C14Step]_vars
 
 (* ---- C07 ---------------------------------------------------------------*)
@@ -135,7 +139,11 @@ C07Laws ==
   \A r1 \in Full, r2 \in Full, r3 \in Full :
     LET e == reg[r1]  a == reg[r2]  b == reg[r3]
         ea == AddAssertionEnv(e, a)  eb == AddAssertionEnv(e, b) IN
-    /\ (IsOk(ea) /\ IsOk(eb)) => AddAssertionEnv(Val(ea), b) = AddAssertionEnv(Val(eb), a)
+    (* order is irrelevant - for inputs that do not collide: the digest image of a node with
+       one assertion [X, Y] equals that of an assertion {X: Y} (a property of the format, found
+       by TLC), and dedupe-by-digest keeps whichever of two colliding elements came first *)
+    /\ (IsOk(ea) /\ IsOk(eb) /\ (Dg(a) = Dg(b) => a = b)) =>
+          AddAssertionEnv(Val(ea), b) = AddAssertionEnv(Val(eb), a)
     /\ IsOk(ea) => AddAssertionEnv(Val(ea), a) = ea
     /\ (IsOk(ea) /\ \A x \in Assertions(e) : Dg(x) # Dg(a)) => RemoveAssertion(Val(ea), a) = e
     /\ (IsOk(ea) /\ ~IsNode(e)) => RemoveAssertion(Val(ea), a) = Subject(e)
